@@ -33,6 +33,11 @@ func init() {
 		Doc: "enumerated: NewClientConn with every window value 0..255 against a listening server (which re-accepts after a failed attempt) on a fault-free transport: a value the protocol can represent ends in the data phase on both sides with exactly that window; any other value makes the client's constructor fail with an error - it must not sit in the handshake",
 	})
 	simrt.Register(&simrt.Scenario{
+		Prop: "C10", Name: "hs-lost-synack", Enumerated: true, Count: fixed(16),
+		Run: c10LostSynack, MaxOps: 1 << 20, Horizon: time.Hour,
+		Doc: "enumerated: one attempt each, no application retry, keepalive off or on (ping 1 s / pong 1 s): the client's SYNACK - which it sends exactly once - is lost, everything else arrives; the client is in the data phase and speaks (DATA at once or two handshake timeouts later; window 1 or 20; static or adaptive resend timeout): the server's attempt must end in the data phase with the client's window (its SYNACK wait times out, the client's DATA proves the handshake), and the client's message must arrive and be answered",
+	})
+	simrt.Register(&simrt.Scenario{
 		Prop: "C10", Name: "hs-stray", Enumerated: true, Count: fixed(len(c10StrayKinds) * 6 * 2),
 		Run: c10Stray, MaxOps: 1 << 20, Horizon: time.Hour,
 		Doc: "enumerated: one attempt on a fault-free transport, one stray packet of an earlier connection (ACK, NACK, DATA, ping, FIN, SYNACK, empty, garbage) delivered to - or one receive error reported to - the server or the client at each of six instants around the SYN / echo / SYNACK exchange; once the client is in the data phase (its SYNACK is out) the server's attempt must have ended too - data phase with the client's window, or an error, never silently half-finished - and a server in the data phase implies a client that is",
@@ -41,6 +46,118 @@ func init() {
 
 // (the last kind, nil, is not a packet: the receive callback returns an error)
 var c10StrayKinds = [][]byte{{ACK, 0}, {NACK, 0}, {DATA, 0, TRUE, FALSE, 's'}, {DATA, 0, TRUE, TRUE}, {FIN}, {SYNACK}, {}, {0x77, 1, 2}, nil}
+
+func c10LostSynack(rc *simrt.RunCtx) {
+	idx := rc.Idx()
+	n := []uint8{1, 20}[idx%2]
+	late := (idx/2)%2 == 1
+	static := (idx/4)%2 == 1
+	keepalive := (idx/8)%2 == 1
+	hsT := 200 * time.Millisecond
+	tk := tknobs{handshake: hsT}
+	if static {
+		tk.static = true
+		tk.resend = 200 * time.Millisecond
+	}
+	if keepalive {
+		tk.ping, tk.pong = time.Second, time.Second
+	}
+	lat := 10 * time.Millisecond
+	c2s := &netCfg{latMin: lat, latMax: lat}
+	s2c := &netCfg{latMin: lat, latMax: lat}
+	np := newNetPair(rc, c2s, s2c)
+	dropped := 0
+	np.c2s.filter = func(b []byte, _ time.Duration) (byte, time.Duration) {
+		if len(b) > 0 && b[0] == SYNACK {
+			dropped++
+			rc.Fault("synack-lost")
+			return 'x', 0
+		}
+		return 0, 0
+	}
+	rc.Knob("case", fmt.Sprintf("N=%d data-late=%v static=%v keepalive=%v", n, late, static, keepalive))
+	ctx, cancel := context.WithCancel(context.Background())
+	defer cancel()
+	opts := []Option{WithTimeoutOptions(tk.opts()...)}
+	type res struct {
+		c   *GoBackNConn
+		err error
+	}
+	srvCh, cliCh := make(chan res, 1), make(chan res, 1)
+	go func() {
+		c, err := NewServerConn(ctx, np.s2c.send, np.c2s.recv, opts...)
+		srvCh <- res{c, err}
+	}()
+	go func() {
+		c, err := NewClientConn(ctx, n, np.c2s.send, np.s2c.recv, opts...)
+		cliCh <- res{c, err}
+	}()
+	var cli res
+	select {
+	case cli = <-cliCh:
+	case <-time.After(20 * hsT):
+		rc.Violate("c10.attempt-hangs", "client/lost-synack", "the client constructor has not returned %v after the start although SYN and its echo crossed a fault-free transport", 20*hsT)
+		return
+	}
+	if cli.err != nil || cli.c == nil {
+		rc.HarnessError("client attempt failed on a transport that only loses the SYNACK: %v", cli.err)
+		return
+	}
+	defer cli.c.Close()
+	if late {
+		time.Sleep(2 * hsT)
+	}
+	sent := make(chan error, 1)
+	go func() { sent <- cli.c.Send(mkMsg('A', 0, 16)) }()
+	// the server's SYNACK wait ends one handshake timeout after its echo; the
+	// client's DATA (retransmitted every resend timeout, >= 1 s when adaptive)
+	// reaches it after that at the latest a few resend timeouts later
+	bound := 20*hsT + 10*time.Second
+	var srv res
+	select {
+	case srv = <-srvCh:
+	case <-time.After(bound):
+		rc.Violate("c10.attempt-hangs", "server/lost-synack", "%v after the start: the client's only SYNACK was lost (%d dropped), the client is in the data phase and keeps sending DATA over a transport that delivers everything else, but the server constructor has neither entered the data phase nor failed", bound, dropped)
+		return
+	}
+	if srv.err != nil || srv.c == nil {
+		// an error is a legal end of the attempt; nothing more to check
+		rc.Probe("c10.lost-synack-server-error")
+		rc.Progress()
+		return
+	}
+	defer srv.c.Close()
+	if srv.c.cfg.n != n || srv.c.cfg.s != n+1 {
+		rc.Violate("c10.window", "lost-synack/server", "server in the data phase with n=%d s=%d, the client proposed %d", srv.c.cfg.n, srv.c.cfg.s, n)
+		return
+	}
+	// data flows, both ways
+	srv.c.SetRecvTimeout(30 * time.Second)
+	b, err := srv.c.Recv()
+	if err != nil || len(b) == 0 || b[0] != 'A' {
+		rc.Violate("c10.progress", "lost-synack/no-data", "both ends are in the data phase after the lost SYNACK, but the client's message does not arrive: %v", err)
+		return
+	}
+	if err := srv.c.Send(mkMsg('B', 0, 16)); err != nil {
+		rc.Violate("c10.progress", "lost-synack/no-data", "the server cannot answer: %v", err)
+		return
+	}
+	cli.c.SetRecvTimeout(30 * time.Second)
+	if b, err := cli.c.Recv(); err != nil || len(b) == 0 || b[0] != 'B' {
+		rc.Violate("c10.progress", "lost-synack/no-data", "the server's answer does not arrive: %v", err)
+		return
+	}
+	select {
+	case err := <-sent:
+		if err != nil {
+			rc.Violate("c10.progress", "lost-synack/no-data", "the client's Send failed: %v", err)
+			return
+		}
+	case <-time.After(time.Minute):
+	}
+	rc.Probe("c10.lost-synack-converged")
+	rc.Progress()
+}
 
 func c10Stray(rc *simrt.RunCtx) {
 	idx := rc.Idx()
